@@ -12,6 +12,7 @@ import (
 
 	"github.com/oasisprotocol/oasis-core/go/common/cbor"
 	"github.com/oasisprotocol/oasis-core/go/common/crypto/hash"
+	"github.com/oasisprotocol/oasis-core/go/common/verifhook"
 	"github.com/oasisprotocol/oasis-core/go/storage/mkvs"
 	db "github.com/oasisprotocol/oasis-core/go/storage/mkvs/db/api"
 	"github.com/oasisprotocol/oasis-core/go/storage/mkvs/node"
@@ -215,11 +216,13 @@ func (pc *parallelChunker) createChunks(ctx context.Context, wf writerFactory, t
 		}
 
 		group.Go(func() error {
+			verifhook.At("checkpoint.chunkTask.start")
 			hash, err := task.nextChunk(ctx, w, pc.chunkSize)
 			if err != nil {
 				return fmt.Errorf("creating new chunk with index %d", idx)
 			}
 
+			verifhook.At("checkpoint.chunkTask.done")
 			mu.Lock()
 			defer mu.Unlock()
 			chunks[i] = hash
